@@ -496,10 +496,10 @@ Proof.
   assert (HPin : P <= inbound /\ inbound < 2 ^ 64) by (unfold P; lia).
   Ltac fin := repeat (apply andb_true_iff; split);
               first [reflexivity | apply Z.ltb_lt; lia | apply Z.leb_le; lia].
-  repeat (apply andb_true_iff; split); try (apply Z.ltb_lt; lia).
+  unfold P in Hfit.
   destruct (Z.leb_spec (a0 + 1 + ((a0 + 1) * prop / 1000000 + base)) inbound) as [H1|H1].
-  - destruct (Z.eqb_spec (a0 + 1) 0); [reflexivity|]. fin.
-  - destruct (Z.eqb_spec a0 0); [reflexivity|]. unfold P in Hfit. fin.
+  - destruct (Z.eqb_spec (a0 + 1) 0); fin.
+  - destruct (Z.eqb_spec a0 0); fin.
 Qed.
 
 (** [check_blinded_forward] (generated): what is offered downstream is what was received less the
